@@ -485,10 +485,10 @@ Lemma write_none_unfold x w :
       let '(rb, xb, wb) := buffer_frame (set_additional_raw x None) msg w in
       match rb with
       | RErr (EWriteBufferFull f') => server_tail false (set_additional xb f') wb
-      | RErr e => (RErr e, xb, wb)
+      | RErr e => (RErr e, set_unflushed xb true, wb)
       | RPanic s => (RPanic s, xb, wb)
       | ROutOfFuel => (ROutOfFuel, xb, wb)
-      | ROk _ => server_tail true xb wb
+      | ROk _ => server_tail true (set_unflushed xb true) wb
       end
   end.
 Proof.
@@ -627,29 +627,40 @@ Proof.
     assert (Hterm1' : x_state xb = Terminated -> x_state x = Terminated \/ transport_ended evs1)
       by exact Hterm1.
     clear Heff1 Hfs1 Hterm1.
-    assert (Hdirect : forall r0 : res bool,
+    assert (Hdirect : forall xx, x_codec xx = x_codec xb -> x_role xx = x_role xb ->
+              x_state xx = x_state xb -> x_additional xx = x_additional xb ->
+              forall r0 : res bool,
               (r0 = RErr EConnectionClosed -> closing_done (x_state x) = true /\ transport_ended evs1) ->
               queued evs1 = [f1] ->
-              exists evs, eff x w xb wb evs /\ kept x xb evs /\ fstate x xb /\ closed_ok r0 x xb evs /\
-                          term_ok x xb evs).
-    { intros r0 Hr0 Hq. exists evs1. splits; auto.
-      - unfold kept. rewrite Es. exists f1. split; [exact Hstrip|]. right. split; [exact Hslot1|].
+              exists evs, eff x w xx wb evs /\ kept x xx evs /\ fstate x xx /\ closed_ok r0 x xx evs /\
+                          term_ok x xx evs).
+    { intros xx Hxc Hxr Hxs Hxa r0 Hr0 Hq. exists evs1. splits; auto.
+      - eapply eff_proper; [..|exact Heff1']; auto.
+      - unfold kept. rewrite Es. exists f1. split; [exact Hstrip|]. right. split; [congruence|].
         rewrite Hq. now left.
+      - unfold fstate. rewrite Hxs. exact Hfs1'.
       - intros Hc. destruct (Hr0 Hc). split; auto.
-      - intros Ht. destruct (Hterm1' Ht); auto. }
-    assert (Htail : forall sf, queued evs1 = [f1] -> server_tail sf xb wb = (r, x', w') ->
+      - intros Ht. rewrite Hxs in Ht. destruct (Hterm1' Ht); auto. }
+    assert (Htail : forall sf, queued evs1 = [f1] ->
+              server_tail sf (set_unflushed xb true) wb = (r, x', w') ->
               exists evs, eff x w x' w' evs /\ kept x x' evs /\ fstate x x' /\ closed_ok r x x' evs /\
                           term_ok x x' evs).
     { intros sf Hq H. apply server_tail_spec in H.
       destruct H as (evs2 & Heff2 & Hslot2 & Hq2 & Hfs2 & Hcl2 & Hterm2 & _).
+      cbn [x_additional set_unflushed] in Hslot2.
+      assert (Heff2' : eff xb wb x' w' evs2) by (eapply eff_proper; [..|exact Heff2]; reflexivity).
+      assert (Hfs2' : fstate xb x') by exact Hfs2.
+      assert (Hcl2' : closed_ok r xb x' evs2) by exact Hcl2.
+      assert (Hterm2' : term_ok xb x' evs2) by exact Hterm2.
+      clear Heff2 Hfs2 Hcl2 Hterm2.
       exists (evs1 ++ evs2). splits.
       - eapply eff_trans; eauto.
       - unfold kept. rewrite Es. exists f1. split; [exact Hstrip|]. right.
         split; [congruence|]. rewrite queued_app, Hq. now left.
       - eapply fstate_trans; eauto.
-      - intros Hc. destruct (Hcl2 Hc) as [Hcd [?|?]];
+      - intros Hc. destruct (Hcl2' Hc) as [Hcd [?|?]];
           (split; [eapply fstate_cd; eauto|]); [now left|right; now apply ended_app_r].
-      - intros Ht. destruct (Hterm2 Ht) as [Ht1|[?|?]].
+      - intros Ht. destruct (Hterm2' Ht) as [Ht1|[?|?]].
         + destruct (Hterm1' Ht1) as [?|?]; [now left|right; right; now apply ended_app_l].
         + right; now left.
         + right; right; now apply ended_app_r. }
@@ -668,10 +679,13 @@ Proof.
         cbn in Ht1, Hst. left. congruence.
     + destruct rb as [u|e|s|].
       * apply Htail. exact Hq.
-      * destruct e; try (intros H; inversion H; subst; apply Hdirect; [auto; discriminate|exact Hq]).
+      * destruct e; try (intros H; inversion H; subst;
+                         apply Hdirect; [reflexivity|reflexivity|reflexivity|reflexivity|auto; discriminate|exact Hq]).
         exfalso. eapply Hnf. reflexivity.
-      * intros H; inversion H; subst. apply Hdirect; [discriminate|exact Hq].
-      * intros H; inversion H; subst. apply Hdirect; [discriminate|exact Hq].
+      * intros H; inversion H; subst.
+        apply Hdirect; [reflexivity|reflexivity|reflexivity|reflexivity|discriminate|exact Hq].
+      * intros H; inversion H; subst.
+        apply Hdirect; [reflexivity|reflexivity|reflexivity|reflexivity|discriminate|exact Hq].
   - intros H. apply server_tail_spec in H.
     destruct H as (evs2 & Heff2 & Hslot2 & Hq2 & Hfs2 & Hcl2 & Hterm2 & _).
     exists evs2. splits; auto. unfold kept. rewrite Es. congruence.
@@ -1994,6 +2008,9 @@ Proof.
     - destruct (Hnw Hge) as (-> & -> & -> & ->). auto. }
   destruct Hrb as (-> & Halt). intros H. apply server_tail_spec in H.
   destruct H as (evs2 & Heff2 & Hslot2 & Hq2 & Hfs2 & _ & _ & Htail).
+  cbn [x_additional x_role x_codec x_state set_unflushed] in Hslot2, Htail.
+  apply (eff_proper (set_unflushed xb true) xb x1 x1 wb w1 evs2 eq_refl eq_refl eq_refl eq_refl eq_refl eq_refl)
+    in Heff2.
   exists k, (evs ++ evs2). fold f1.
   rewrite (eff_log _ _ _ _ _ Heff2), Hlog, <- app_assoc.
   rewrite queued_app, wire_app, Hq2, app_nil_r. subst evs. cbn [queued wire]. rewrite Hq1.
@@ -2005,7 +2022,7 @@ Proof.
   - (* no server tail *)
     assert (He2 : evs2 = []).
     { pose proof (eff_log _ _ _ _ _ Heff2) as L2. symmetry in L2. now apply app_eq_self_nil in L2. }
-    subst evs2. cbn [wire]. rewrite ?app_nil_r.
+    subst evs2. cbn [wire x_codec set_unflushed]. rewrite ?app_nil_r.
     destruct Halt as [(-> & Hw & Hwi)|(-> & Hw & ->)].
     + left. rewrite Hxb3. auto.
     + right. rewrite Hxb3. splits; eauto.
@@ -2999,7 +3016,310 @@ Proof.
     destruct Hmid as (_ & _ & _ & f & Hf & _). congruence.
 Qed.
 
-(* --- a read()-only driver does not push a Close that sits in the write buffer --- *)
+(* ------------------------------------------------------------------------------------------ *)
+(* 15. read() alone drives the closing handshake                                               *)
+(*     (_write sets unflushed_additional when it moves the slot into the write buffer)         *)
+(* ------------------------------------------------------------------------------------------ *)
+
+(* read() begins with flush(), or nothing is left to send *)
+Definition pushes_or_clean (x : ctx) : Prop := read_pushes x \/ clean x.
+
+Lemma set_additional_unflushed x f : x_unflushed (set_additional x f) = x_unflushed x.
+Proof. apply set_additional_fields. Qed.
+
+Lemma slot_after_some a f : slot_after a f <> None.
+Proof. unfold slot_after. destruct a as [g|]; [destruct (opcode_eqb _ _)|]; discriminate. Qed.
+
+Lemma server_tail_flag sf x w r x' w' :
+  server_tail sf x w = (r, x', w') ->
+  x_unflushed x' = x_unflushed x /\ x_additional x' = x_additional x.
+Proof.
+  unfold server_tail.
+  destruct (role_eqb (x_role x) Server && closing_done (x_state x)
+            && match x_additional x with None => true | Some _ => false end).
+  - destruct (write_out_buffer (x_codec x) w) as [[rw c'] w2].
+    destruct rw; intros H; inversion H; subst; split; reflexivity.
+  - intros H; inversion H; subst; split; reflexivity.
+Qed.
+
+Lemma buffer_frame_flag x f w r x' w' :
+  buffer_frame x f w = (r, x', w') ->
+  x_unflushed x' = x_unflushed x /\ x_additional x' = x_additional x /\
+  (forall s, r <> RPanic s) /\ r <> ROutOfFuel.
+Proof.
+  intros H. apply buffer_frame_spec in H.
+  destruct H as (k & out' & s' & evs & Hx & _ & _ & _ & Hcase). cbv zeta in *.
+  subst x'. cbn [x_unflushed x_additional set_state set_codec].
+  split; [reflexivity|]. split; [reflexivity|].
+  destruct Hcase as [(-> & _)|(_ & evs1 & _ & _ & _ & Hccr & _)].
+  - split; [intros s|]; discriminate.
+  - unfold ccr_res in Hccr. destruct r as [u|e|s|]; try contradiction; split; try (intros; discriminate); discriminate.
+Qed.
+
+(* _write(None) never clears the flag, and what leaves the slot sets it *)
+Lemma write_none_pushes x w r x' w' :
+  write_ x None w = (r, x', w') -> read_pushes x -> read_pushes x'.
+Proof.
+  rewrite write_none_unfold. unfold read_pushes. destruct (x_additional x) as [msg|] eqn:Es.
+  - destruct (buffer_frame (set_additional_raw x None) msg w) as [[rb xb] wb] eqn:Eb.
+    apply buffer_frame_flag in Eb. destruct Eb as (Hfl & Hsl & Hnp & Hnf).
+    cbn [x_additional x_unflushed set_additional_raw] in Hfl, Hsl.
+    intros H _. destruct rb as [u|e|s|].
+    + apply server_tail_flag in H. destruct H as [Hf _]. right. rewrite Hf. reflexivity.
+    + destruct e; try (inversion H; subst; right; reflexivity).
+      apply server_tail_flag in H. destruct H as [_ Ha]. left.
+      rewrite Ha, set_additional_slot. apply slot_after_some.
+    + exfalso. eapply Hnp. reflexivity.
+    + exfalso. apply Hnf. reflexivity.
+  - intros H [Hc|Hc]; [congruence|]. apply server_tail_flag in H. destruct H as [Hf _].
+    right. congruence.
+Qed.
+
+(* flush() clears the flag only when it has written everything *)
+Lemma flush_pushes x w r x' w' :
+  flush x w = (r, x', w') -> read_pushes x -> read_pushes x' \/ (r = ROk tt /\ clean x').
+Proof.
+  intros H Hp. destruct (write_ x None w) as [[r0 x0] w0] eqn:E0.
+  pose proof (write_none_pushes _ _ _ _ _ E0 Hp) as Hp0.
+  unfold flush in H. rewrite E0 in H.
+  destruct r0 as [b|e|s|]; try (inversion H; subst; now left).
+  destruct (write_out_buffer (x_codec x0) w0) as [[r1 c1] w1] eqn:E1.
+  apply write_out_buffer_spec in E1.
+  destruct E1 as (out' & evs1 & Hc & _ & _ & _ & _ & _ & _ & _ & Hok & _).
+  assert (Hmid : read_pushes (set_codec x0 c1)) by exact Hp0.
+  destruct r1 as [u|e|s|]; try (inversion H; subst; now left).
+  destruct u. specialize (Hok eq_refl). subst out'.
+  destruct (w_flush w1) as [r2 w2].
+  destruct r2 as [u2|e2|s2|]; try (inversion H; subst; now left).
+  inversion H; subst; clear H.
+  destruct (x_additional x0) as [f|] eqn:Ea.
+  - left. left. cbn [x_additional set_unflushed set_codec]. rewrite Ea. discriminate.
+  - right. split; [reflexivity|]. split; [exact Ea|reflexivity].
+Qed.
+
+Lemma flush_poc x w r x' w' :
+  flush x w = (r, x', w') -> pushes_or_clean x -> pushes_or_clean x'.
+Proof.
+  intros H [Hp|Hc].
+  - destruct (flush_pushes _ _ _ _ _ H Hp) as [?|[_ ?]]; [now left|now right].
+  - right. exact (proj1 (flush_clean _ _ _ _ _ Hc H)).
+Qed.
+
+Lemma process_frame_flag x1 f w1 r x' w' :
+  process_frame x1 f w1 = (r, x', w') -> x_unflushed x' = x_unflushed x1.
+Proof.
+  unfold process_frame. cbv zeta. intros H.
+  repeat match type of H with
+         | context [match ?t with _ => _ end] => destruct t eqn:?
+         end;
+  inversion H; subst; clear H;
+  try match goal with
+      | Hd : do_close _ _ = _ |- _ =>
+          apply do_close_spec in Hd;
+          destruct Hd as [(Hs & c & Hr & Hx)|[(Hs & Hr & Hx)|(Hx & Hcr & Hr)]]; subst
+      end;
+  rewrite ?set_additional_unflushed; reflexivity.
+Qed.
+
+Lemma rmf_flag x w r x' w' :
+  read_message_frame x w = (r, x', w') -> x_unflushed x' = x_unflushed x.
+Proof.
+  rewrite rmf_unfold.
+  destruct (read_frame _ _ _ _ _) as [[r0 c1] w1].
+  destruct (check_connection_reset r0 (x_state x)) as [r0' s1]. cbv zeta.
+  destruct r0' as [[f|]|e|s|]; cbn [x_state set_state].
+  - intros H. apply process_frame_flag in H. exact H.
+  - destruct s1; intros H; inversion H; reflexivity.
+  - intros H; inversion H; reflexivity.
+  - intros H; inversion H; reflexivity.
+  - intros H; inversion H; reflexivity.
+Qed.
+
+Lemma rmf_poc x w r x' w' :
+  read_message_frame x w = (r, x', w') -> pushes_or_clean x -> pushes_or_clean x'.
+Proof.
+  intros H HQ. pose proof (rmf_flag _ _ _ _ _ H) as Hfl. apply rmf_spec in H.
+  destruct H as (evs & _ & _ & _ & Ho & _ & _ & _ & Hcases).
+  assert (Hsl : x_additional x' = x_additional x \/ x_additional x' <> None).
+  { destruct Hcases as [(Ha & _)|[(_ & p & _ & _ & Ha)|[(_ & c & _ & _ & Ha)|(_ & c & _ & _ & Ha)]]];
+      [now left|right; rewrite Ha; apply slot_after_some|right; rewrite Ha; apply slot_after_some|now left]. }
+  destruct Hsl as [Hsl|Hsl]; [|left; now left].
+  destruct HQ as [[Hp|Hp]|[Hs Hc]].
+  - left; left. congruence.
+  - left; right. congruence.
+  - right. split; congruence.
+Qed.
+
+Lemma read_pre_poc x w r0 x0 w0 :
+  read_pre x w = (r0, x0, w0) -> pushes_or_clean x -> pushes_or_clean x0.
+Proof.
+  intros H [Hp|Hc].
+  - rewrite (read_pre_flushes _ _ Hp) in H.
+    destruct (flush x w) as [[r x'] w'] eqn:Ef.
+    pose proof (flush_poc _ _ _ _ _ Ef (or_introl Hp)) as HQ'.
+    destruct r as [u|e|s|]; try (inversion H; subst; exact HQ').
+    destruct e; try (inversion H; subst; exact HQ').
+    destruct k; inversion H; subst; try exact HQ'. left. right. reflexivity.
+  - right. exact (proj1 (read_pre_clean _ _ _ _ _ Hc H)).
+Qed.
+
+Lemma read_loop_poc fuel : forall x w r x' w',
+  read_loop fuel x w = (r, x', w') -> pushes_or_clean x -> pushes_or_clean x'.
+Proof.
+  induction fuel as [|fuel IH]; intros x w r x' w' H HQ.
+  - cbn in H. inversion H; subst. exact HQ.
+  - rewrite read_loop_unfold in H.
+    destruct (read_pre x w) as [[r0 x0] w0] eqn:Ep.
+    pose proof (read_pre_poc _ _ _ _ _ Ep HQ) as HQ0.
+    destruct r0 as [u|e|s|]; try (inversion H; subst; exact HQ0).
+    destruct (read_message_frame x0 w0) as [[r1 x1] w1] eqn:Em.
+    pose proof (rmf_poc _ _ _ _ _ Em HQ0) as HQ1.
+    destruct r1 as [[m|]|e|s|]; try (inversion H; subst; exact HQ1).
+    eapply IH; eauto.
+Qed.
+
+(* once the connection is no longer Active, every API call keeps "read() pushes, or nothing is left" *)
+Lemma run_op_poc x o w res x' w' :
+  run_op x o w = (res, x', w') -> x_state x <> Active -> pushes_or_clean x ->
+  x_state x' <> Active /\ pushes_or_clean x'.
+Proof.
+  intros H Hna HQ. split.
+  { pose proof H as H'. apply run_op_step in H'. destruct H' as (evs & Hst & _).
+    intros Ha. apply Hna. now apply Hst. }
+  destruct o as [|m| |c| | |wbs mx]; cbn [run_op] in H.
+  - destruct (read x w) as [[r x1] w1] eqn:E. inversion H; subst; clear H.
+    unfold read in E. destruct (is_terminated (x_state x)).
+    + inversion E; subst. exact HQ.
+    + eapply read_loop_poc; eauto.
+  - destruct (write x m w) as [[r x1] w1] eqn:E. inversion H; subst; clear H.
+    apply write_spec in E. destruct E as [(-> & _)|(Hact & _)]; [exact HQ|contradiction].
+  - destruct (flush x w) as [[r x1] w1] eqn:E. inversion H; subst; clear H. eapply flush_poc; eauto.
+  - destruct (close x c w) as [[r x1] w1] eqn:E. inversion H; subst; clear H.
+    rewrite close_eq in E. unfold close_start in E.
+    destruct (x_state x) eqn:Es; [congruence|..]; eapply flush_poc; eauto.
+  - inversion H; subst. exact HQ.
+  - inversion H; subst. exact HQ.
+  - destruct (config_valid _); inversion H; subst; exact HQ.
+Qed.
+
+Lemma run_ops_poc ops : forall x w rs x' w',
+  run_ops x ops w = (rs, x', w') -> x_state x <> Active -> pushes_or_clean x ->
+  x_state x' <> Active /\ pushes_or_clean x'.
+Proof.
+  induction ops as [|o ops IH]; intros x w rs x' w' H Hna HQ.
+  - inversion H; subst. auto.
+  - rewrite run_ops_cons in H. destruct (run_op x o w) as [[res1 x1] w1] eqn:E1.
+    destruct (run_ops x1 ops w1) as [[rs1 x2] w2] eqn:E2. inversion H; subst; clear H.
+    destruct (run_op_poc _ _ _ _ _ _ E1 Hna HQ) as [Hna1 HQ1]. eapply IH; eauto.
+Qed.
+
+(* with the FIFO accounting: read() pushes, or the pending frame is entirely on the wire *)
+Lemma poc_on_wire base g x w :
+  fifo x w -> pend base g x (w_log w) -> pushes_or_clean x ->
+  read_pushes x \/ on_wire base g x w.
+Proof.
+  unfold fifo. intros Hf (new & Hq & Hp) [Hr|[Hs Ho]]; [now left|right].
+  split; [split; assumption|]. rewrite Ho, app_nil_r in Hf. split; [exact Hf|].
+  destruct Hp as [(f0 & Hf0 & _)|(f0 & Hin & Hsg)]; [congruence|].
+  apply in_split in Hin. destruct Hin as (l1 & l2 & ->).
+  exists (base ++ l1), f0, l2. rewrite Hq. splits; auto.
+  + now rewrite <- app_assoc. + rewrite app_length. lia.
+Qed.
+
+Lemma close_op_poc x o code w res x' w' :
+  close_op o code -> x_state x = Active -> run_op x o w = (res, x', w') -> pushes_or_clean x'.
+Proof.
+  intros Hop Hact H.
+  assert (E : exists r, close x code w = (r, x', w')).
+  { destruct Hop as [->| ->]; cbn [run_op] in H.
+    - destruct (close x code w) as [[r x1] w1]. inversion H; subst. eauto.
+    - unfold write in H. rewrite Hact in H. cbn [is_terminated is_active negb] in H.
+      destruct (close x code w) as [[r x1] w1]. inversion H; subst. eauto. }
+  destruct E as (r & E). rewrite close_eq in E. eapply flush_poc; [exact E|].
+  left. left. unfold close_start. rewrite Hact. cbn [x_additional set_additional_raw]. discriminate.
+Qed.
+
+(* --- after close() on an Active connection, through ANY later history: the connection is not
+   Active, and read() begins with flush() or the Close frame is already entirely on the wire --- *)
+Lemma close_read_pushes x w o code res x1 w1 :
+  reachable x w -> x_state x = Active -> close_op o code -> run_op x o w = (res, x1, w1) ->
+  forall ops rs x2 w2, run_ops x1 ops w1 = (rs, x2, w2) ->
+    x_state x2 <> Active /\
+    (read_pushes x2 \/ on_wire (queued (w_log w)) (frame_close code) x2 w2).
+Proof.
+  intros Hr Hact Hop H ops rs x2 w2 H2.
+  destruct (run_op_close_active _ _ _ _ _ _ _ Hop Hact H) as [_ Hst1].
+  pose proof (close_op_poc _ _ _ _ _ _ _ Hop Hact H) as HQ1.
+  destruct (run_ops_poc _ _ _ _ _ _ H2 ltac:(congruence) HQ1) as [Hna2 HQ2].
+  destruct (close_pending _ _ _ _ _ _ _ Hr Hact Hop H) as [_ Hall].
+  destruct (Hall _ _ _ _ H2) as [Hp2 Hf2].
+  split; [exact Hna2|]. now apply poc_on_wire.
+Qed.
+
+(* the same for the Close reply parked by a read() that returned Close(c) *)
+Lemma reply_read_pushes x w c x1 w1 :
+  reachable x w -> x_state x = Active ->
+  run_op x OpRead w = (ResMsg (ROk (MClose c)), x1, w1) ->
+  forall ops rs x2 w2, run_ops x1 ops w1 = (rs, x2, w2) ->
+    x_state x2 <> Active /\
+    (read_pushes x2 \/ on_wire (queued (w_log w1)) (frame_close c) x2 w2).
+Proof.
+  intros Hr Hact H ops rs x2 w2 H2.
+  destruct (reply_pending_close _ _ _ _ _ Hr Hact H) as (Hs1 & Hst1 & Hall).
+  assert (HQ1 : pushes_or_clean x1) by (left; left; congruence).
+  destruct (run_ops_poc _ _ _ _ _ _ H2 ltac:(congruence) HQ1) as [Hna2 HQ2].
+  destruct (Hall _ _ _ _ H2) as [Hp2 Hf2].
+  split; [exact Hna2|]. now apply poc_on_wire.
+Qed.
+
+Lemma push_call_on_wire base g x o w res x' w' :
+  push_call o -> x_state x <> Active -> on_wire base g x w -> run_op x o w = (res, x', w') ->
+  on_wire base g x' w' /\ x_state x' <> Active.
+Proof.
+  intros Ho Hna Hon H. split.
+  - destruct (push_call_cases _ _ _ _ _ _ Ho Hna H) as [(r & F)|(_ & r & R)];
+      [eapply flush_on_wire; eauto|eapply read_on_wire; eauto].
+  - apply run_op_step in H. destruct H as (evs & Hst & _). intros Ha. apply Hna. now apply Hst.
+Qed.
+
+(* flush(), close(), read() in ANY combination: two calls deliver whenever read() is a pushing
+   call at the start (or the frame is on the wire already) *)
+Lemma eventually_sent_pushing x w base g o1 o2 res1 x1 w1 res2 x2 w2 :
+  reachable x w -> x_state x <> Active -> x_state x <> Terminated ->
+  pend base g x (w_log w) -> transport_accepts x w ->
+  read_pushes x \/ on_wire base g x w ->
+  push_call o1 -> push_call o2 ->
+  run_op x o1 w = (res1, x1, w1) -> run_op x1 o2 w1 = (res2, x2, w2) ->
+  on_wire base g x2 w2 \/ exists evs, w_log w1 = w_log w ++ evs /\ transport_ended evs.
+Proof.
+  intros Hr Hna Hnt Hp Hta [Hrp|Hon] Ho1 Ho2 H1 H2.
+  - eapply (eventually_sent_calls x w base g o1 o2); eauto.
+  - left. destruct (push_call_on_wire _ _ _ _ _ _ _ _ Ho1 Hna Hon H1) as [Hon1 Hna1].
+    exact (proj1 (push_call_on_wire _ _ _ _ _ _ _ _ Ho2 Hna1 Hon1 H2)).
+Qed.
+
+(* --- close() on an Active connection, then any history (e.g. calls that block), then - once the
+   transport accepts - two calls among flush()/close()/read(), read() alone included: the Close
+   frame is entirely on the wire (or the transport ended during the first of the two calls) --- *)
+Lemma close_eventually_sent_any_call x w o code res x1 w1 ops rs x2 w2 o1 o2 res3 x3 w3 res4 x4 w4 :
+  reachable x w -> x_state x = Active -> close_op o code -> run_op x o w = (res, x1, w1) ->
+  run_ops x1 ops w1 = (rs, x2, w2) ->
+  x_state x2 <> Terminated -> transport_accepts x2 w2 ->
+  push_call o1 -> push_call o2 ->
+  run_op x2 o1 w2 = (res3, x3, w3) -> run_op x3 o2 w3 = (res4, x4, w4) ->
+  on_wire (queued (w_log w)) (frame_close code) x4 w4 \/
+  exists evs, w_log w3 = w_log w2 ++ evs /\ transport_ended evs.
+Proof.
+  intros Hr Hact Hop H H2 Hnt Hta Ho1 Ho2 H3 H4.
+  destruct (close_read_pushes _ _ _ _ _ _ _ Hr Hact Hop H _ _ _ _ H2) as [Hna2 Hrp2].
+  destruct (close_pending _ _ _ _ _ _ _ Hr Hact Hop H) as [_ Hall].
+  destruct (Hall _ _ _ _ H2) as [Hp2 _].
+  assert (Hr2 : reachable x2 w2).
+  { eapply reachable_ops; [|exact H2]. eapply reachable_op; eauto. }
+  exact (eventually_sent_pushing x2 w2 _ _ o1 o2 _ _ _ _ _ _ Hr2 Hna2 Hnt Hp2 Hta Hrp2 Ho1 Ho2 H3 H4).
+Qed.
+
+(* --- the scenario that used to defeat a read()-only driver --- *)
 Definition rr_cfg : config := mkConfig 131072 18446744073709551615 (Some 67108864) (Some 16777216) false.
 Definition rr_world : world :=
   mkWorld [] [WrErr WouldBlock; WrAccept 1000; WrAccept 1000; WrAccept 1000; WrAccept 1000] [] [] [].
@@ -3010,27 +3330,21 @@ Definition rr_ctx : ctx :=
   end.
 Definition rr_state : list (op_result * N) * ctx * world := run_ops rr_ctx [OpClose None] rr_world.
 
-Lemma not_ended (evs : list event) :
-  forallb (fun e => match e with
-                    | EvRead RdEof | EvRead (RdErr ConnReset) | EvWriteErr _ ConnReset | EvWrite _ [] => false
-                    | _ => true end) evs = true ->
-  ~ transport_ended evs.
-Proof.
-  intros Hb He. unfold transport_ended in He. apply Exists_exists in He. destruct He as (e & Hin & He).
-  rewrite forallb_forall in Hb. specialize (Hb e Hin).
-  destruct e as [[bs| |[| | |]]|n [|b acc]|n [| | |]|f|f|n]; cbn in *; try discriminate; contradiction.
-Qed.
-
-Lemma eventually_sent_read_refuted :
+(* Server, default configuration, transport blocked: close(None) queues the Close frame into the
+   write buffer and returns WouldBlock (slot empty; unflushed_additional is now TRUE).  The
+   transport then accepts, the user only calls read(): the first read() (it returns WouldBlock
+   from the read side) writes the Close frame 88 00. *)
+Lemma eventually_sent_read_example :
   let '(rs, x, w) := rr_state in
   rs = [(ResUnit (RErr (EIo WouldBlock)), 2)] /\
   reachable x w /\ x_state x = ClosedByUs /\
   pend [] (frame_close None) x (w_log w) /\ c_out (x_codec x) = [136; 0] /\ x_additional x = None /\
+  x_unflushed x = true /\ read_pushes x /\
   transport_accepts x w /\ Forall (generous 1000) (w_wrs w) /\
-  let '(rs2, x2, w2) := run_ops x [OpRead; OpRead; OpRead] w in
-  wire (w_log w2) = [] /\ c_out (x_codec x2) = [136; 0] /\
-  ~ transport_ended (skipn (length (w_log w)) (w_log w2)) /\
-  ~ on_wire [] (frame_close None) x2 w2.
+  let '(rs2, x2, w2) := run_ops x [OpRead] w in
+  map fst rs2 = [ResMsg (RErr (EIo WouldBlock))] /\
+  wire (w_log w2) = [136; 0] /\ c_out (x_codec x2) = [] /\
+  on_wire [] (frame_close None) x2 w2.
 Proof.
   vm_compute rr_state. cbv iota beta.
   split; [reflexivity|]. split.
@@ -3038,12 +3352,12 @@ Proof.
     split; [reflexivity|]. split; [reflexivity|]. vm_compute. reflexivity. }
   split; [reflexivity|]. split.
   { eexists. split; [vm_compute; reflexivity|]. right. eexists. split; [now left|reflexivity]. }
-  split; [reflexivity|]. split; [reflexivity|]. split.
+  split; [reflexivity|]. split; [reflexivity|]. split; [reflexivity|]. split; [right; reflexivity|]. split.
   { unfold transport_accepts. cbn [x_additional]. eexists. vm_compute. reflexivity. }
   split.
   { repeat constructor; eexists; (split; [reflexivity|]); vm_compute; discriminate. }
   vm_compute run_ops. cbv iota beta.
-  split; [reflexivity|]. split; [reflexivity|]. split.
-  - apply not_ended. vm_compute. reflexivity.
-  - intros ((_ & Ho) & _). cbn in Ho. discriminate.
+  split; [reflexivity|]. split; [reflexivity|]. split; [reflexivity|].
+  split; [split; reflexivity|]. split; [vm_compute; reflexivity|].
+  exists [], (frame_close None), []. split; [vm_compute; reflexivity|]. split; [reflexivity|]. cbn. lia.
 Qed.
